@@ -71,6 +71,10 @@ def _under_type(h, name, inside=False):
     return any(_under_type(a, name, inside or h['k'] == 'type') for a in h.get('a', []) or [] if isinstance(a, dict))
 
 
+def _opaque_exo(h):
+    return (h['k'] == 'exo' and h.get('n') != 'TypedDict') or any(_opaque_exo(a) for a in h.get('a', []) or [] if isinstance(a, dict))
+
+
 def _mentions_exo(h, name):
     return (h['k'] == 'exo' and h.get('n') == name) or any(_mentions_exo(a, name) for a in h.get('a', []) or [] if isinstance(a, dict))
 
@@ -91,6 +95,8 @@ def _bias_hint(rng, names, no_tv=False):
         h = H.gen_hint(rng, rng.choice([1, 2, 3]), families=FAMILIES_NO_TV if no_tv else None)
         if no_tv and _has_tv(h):
             continue
+        if _opaque_exo(h):
+            continue        # classes inside these hints are occurrences too, but the hand-rewrite on the DSL cannot reach them
         hits = []
         rewrite(h, {n: {'k': 'any'} for n in names}, 0, hits)
         if hits:
